@@ -824,6 +824,8 @@ structure Part where
   ct : Str              -- the part's Content-Type header ("" = none)
   text : Str            -- the part's content
   json : Option V       -- what `encoding/json` makes of `text`
+  yaml : Option V := none                   -- what yaml3 makes of `text`
+  csv : Option (List (List Str)) := none    -- what `encoding/csv` makes of `text`
   deriving Repr
 
 structure BodyIn where
@@ -845,12 +847,26 @@ inductive Dec
   | unmodelled          -- YAML / CSV / form decoders nested inside multipart parts: outside this model (never generated)
   deriving Repr
 
-/-- `JSONBodyDecoder`, `PlainBodyDecoder`, `FileBodyDecoder` on one piece of text -/
-def decodeSimple (k : DecK) (text : Str) (json : Option V) : Dec :=
+/-- `CsvBodyDecoder`: every record joined with "," and terminated by a newline, as one string -/
+def csvLine : List Str → Str
+  | [] => []
+  | [x] => x
+  | x :: y :: r => x ++ ',' :: csvLine (y :: r)
+
+def csvJoin : List (List Str) → Str
+  | [] => []
+  | r :: rs => csvLine r ++ '\n' :: csvJoin rs
+
+/-- `JSONBodyDecoder`, `PlainBodyDecoder`, `FileBodyDecoder`, `YamlBodyDecoder`, `CsvBodyDecoder` on one piece of
+text (the whole body or one multipart part), given what the trusted parsers make of it -/
+def decodeSimple (k : DecK) (text : Str) (json : Option V) (yaml : Option V := none)
+    (csv : Option (List (List Str)) := none) : Dec :=
   match k with
   | .json => (match json with | some v => .val v | none => .err)
   | .plain => .val (.str text)
   | .file => .val (.str text)
+  | .yaml => (match yaml with | some v => .val v | none => .err)
+  | .csv => (match csv with | some recs => .val (.str (csvJoin recs)) | none => .err)
   | _ => .unmodelled
 
 /-! #### number / boolean texts (`strconv` on the decimal subset) -/
@@ -1139,7 +1155,7 @@ def decodePart (reg : List (Str × DecK)) (p : Part) : Dec :=
   let ct := if p.ct = [] then "text/plain".toList else p.ct
   match lookup (base ct) reg with
   | none => .err
-  | some k => decodeSimple k p.text p.json
+  | some k => decodeSimple k p.text p.json p.yaml p.csv
 
 /-- is a part name declared? `MultipartBodyDecoder`: with `allOf` the members' own properties are searched and
 a miss is an error; without, the schema's properties, then additionalProperties (true → skip the part) -/
@@ -1202,25 +1218,13 @@ def decodeMultipart (reg : List (Str × DecK)) (s : RS) (parts : Option (List Pa
     | .inl (some vals) => .val (.obj (assemble vals (assemblyProps s)))
     | .inr _ => .unmodelled
 
-/-- `CsvBodyDecoder`: every record joined with "," and terminated by a newline, as one string -/
-def csvLine : List Str → Str
-  | [] => []
-  | [x] => x
-  | x :: y :: r => x ++ ',' :: csvLine (y :: r)
-
-def csvJoin : List (List Str) → Str
-  | [] => []
-  | r :: rs => csvLine r ++ '\n' :: csvJoin rs
-
 /-- `decodeBody`: the decoder is chosen by the *request's* Content-Type without parameters -/
 def decodeBody (reg : List (Str × DecK)) (ct : Str) (s : RS) (encs : List (Str × Enc)) (b : BodyIn) : Dec :=
   match lookup (base ct) reg with
   | none => .err                               -- "unsupported content type"
   | some .urlencoded => decodeForm s encs b.form
   | some .multipart => decodeMultipart reg s b.parts
-  | some .yaml => (match b.yaml with | some v => .val v | none => .err)
-  | some .csv => (match b.csv with | some recs => .val (.str (csvJoin recs)) | none => .err)
-  | some k => decodeSimple k b.text b.json
+  | some k => decodeSimple k b.text b.json b.yaml b.csv
 
 /-! ### `ValidateRequestBody` -/
 
